@@ -44,7 +44,8 @@ Definition nv_new : list key := [[2]; [3]].
 Definition nv_sys : sys := (nv_old, [spawn (nv_prog "isValidPublicKey") []; spawn (nv_prog "Replace") nv_new; spawn (nv_prog "isValidPublicKey") []]).
 Example C20_nv :
   initial [nv_old; nv_new; []] nv_sys /\
-  match run [0; 0; 0; 1; 1; 1; 2; 2; 2]%nat nv_sys with
+  (* each thread runs to completion in turn, however many operations the regenerated programs have *)
+  match run (repeat 0 (length (nv_prog "isValidPublicKey")) ++ repeat 1 (length (nv_prog "Replace")) ++ repeat 2 (length (nv_prog "isValidPublicKey")))%nat nv_sys with
   | Some (ks, [a; _; b]) => ks = nv_new /\ verdict [1] a = Some true /\ verdict [1] b = Some false /\ verdict [2] a = Some true /\ verdict [2] b = Some true
   | _ => False
   end /\
